@@ -78,3 +78,13 @@ claim("C17", "other",
   "Partial claim: float sums whose operand order follows hash order (S3) are an explicit assumption (order-independent up to rounding; exact for unweighted graphs), not decided. The second sentence of the property (non-randomised algorithms) is covered only as far as they are reachable from the seeded entry points.",
   "call-graph scoping + control-dependence on the seed discriminant + hash-order sink classification (type-resolved hasher, consumer classes, sort-after-collect, keyed stores) + reviewed table",
   "DESIGN.md section 4, C17 (S1-S5)")
+claim("C12", "other",
+  "Decides structural necessary conditions of C12: is_partition's answer depends on a graph-membership lookup of the members, on an element-identity operation ACROSS communities (without which an overlap compensated by a missing node cannot be seen) and on the node count, with every `false` conditional on such a test; modularity answers only behind is_partition(graph, communities) == true and builds NotAPartition on the false edge; its value depends on communities/weighted/resolution, the six degree tables and the induced subgraphs.",
+  "Partial claim, stated plainly: that is_partition is exactly the partition predicate and that modularity equals Newman's formula are value-level and NOT decided. (The design had C12 as not applicable because the count-based defect seemed to have no structural signature; the necessary information-flow condition R-C12-1 does expose it, the defect was repaired in 0e1e0d3.)",
+  "MUST-DEPEND slices on required operations (membership, cross-set identity, node count) + guard/edge-deletion reachability",
+  "DESIGN.md section 12.5, C12 (R-C12-1..3)")
+claim("C13", "other",
+  "Decides three structural clauses of C13 and says plainly that the rest is undecided: the list of levels returned by louvain_partitions is never empty (path-sensitive predicate abstraction: every abstract path into Ok(levels) has pushed a level), communities are non-empty (empty sets are filtered from both partitions compute_one_level returns; the initial partition is made of singletons), louvain_communities returns the popped last level or NoPartitions; within a level communities change only by moving a node's whole member set.",
+  "Stated plainly: termination, nesting as a value-level fact and non-decreasing modularity depend on run-time floating-point gains and are NOT decided by any rule here; the claim covers the structural clauses only.",
+  "path-sensitive predicate-abstraction dataflow (constant-initialised loop flag) + producer-chain and dependence rules + guard/edge-deletion",
+  "DESIGN.md section 12.6, C13 (R-C13-1..4)")
